@@ -17,6 +17,7 @@ const (
 	sigLookahead = 4
 	sigPartition = 5
 	sigEntry     = 6
+	sigFinal     = 7
 )
 
 func computeRuleClasses(t *Tables, g *Grammar) []int {
@@ -103,9 +104,19 @@ func partitionStatesByAction(t *Tables, ruleClass []int, numStates, numInputs in
 	partition := make([]int, numStates)
 	partitions := container.NewIntSliceSet()
 
+	final := make(map[int]bool, len(t.FinalStates))
+	for _, s := range t.FinalStates {
+		final[s] = true
+	}
+
 	// Create the initial partitions
 	for i := 0; i < numStates; i++ {
 		sig := stateSignature(i)
+		if final[i] {
+			// Parsing stops as soon as the final state of an input is reached, so a final state
+			// can only be merged with other final states.
+			sig = append([]int{sigFinal}, sig...)
+		}
 		partition[i] = partitions.Insert(sig)
 	}
 	return partition, partitions
